@@ -1,22 +1,25 @@
 #!/bin/bash
-# Dev-time: repository-wide syntactic rewrites that cannot change behaviour (inverted if/else, guard clauses turned
-# into if/else nests, nil on the left of comparisons) must leave all 40 verdicts unchanged.
-# usage: run_astmut.sh [mode…]   (default: invert nest yoda)
-exec 9>/tmp/repo.lock; flock 9
+# Dev-time: repository-wide rewrites that cannot change behaviour must leave all 40 verdicts unchanged.
+#   syntactic (checker/cmd/astmut):  invert (if/else swapped), nest (guard clauses -> if/else nests), yoda (nil == x)
+#   typed (checker/cmd/astmut2):     index (range -> index loops), emptylen / emptystr (s == "" <-> len(s) == 0),
+#                                    mergeif / splitand (nested ifs <-> a && b)
+# Each rewrite is applied to a private worktree of /repo's HEAD (/repo itself is not touched) and all checks run on it.
+# usage: run_astmut.sh [mode...]
 . /verif/scripts/goenv.sh
-cd /verif/checker && go build -o /verif/bin/astmut ./cmd/astmut || exit 2
-cd /repo || exit 2
-git diff --quiet || { echo "/repo dirty"; exit 2; }
-modes=${@:-invert nest yoda}
+cd /verif/checker && go build -o /verif/bin/astmut ./cmd/astmut && go build -o /verif/bin/astmut2 ./cmd/astmut2 || exit 2
+[ -x /verif/bin/bifrost-verify ] || bash /verif/scripts/setup.sh >/dev/null
+wt=/tmp/wt-am; vd=/tmp/verif-am
+[ -d $wt ] || git -C /repo worktree add -q --detach $wt HEAD
+mkdir -p $vd/evidence; ln -sfn /verif/checker $vd/checker; cp /verif/known-findings.json $vd/
+cd $wt && git checkout -q --detach $(git -C /repo rev-parse HEAD) && git checkout -q -- . && git clean -fdq
+modes=${@:-invert nest yoda index emptylen emptystr mergeif splitand}
 rc=0
 for m in $modes; do
-  /verif/bin/astmut -mode $m /repo
-  go build ./... || { echo "rewrite $m does not build"; rc=1; git checkout -- .; continue; }
-  for i in $(seq -w 1 40); do echo C$i; done | xargs -P 6 -I{} sh -c '/verif/scripts/run_check.sh {} quick > /tmp/astmut-{}.out 2>&1 || echo "FALSE ALARM under rewrite '$m': {}"' | tee /tmp/astmut-$m.fails
-  [ -s /tmp/astmut-$m.fails ] && rc=1
-  for f in $(sed -n 's/.*: \(C[0-9]*\)$/\1/p' /tmp/astmut-$m.fails); do grep -E "violated|undecided" /tmp/astmut-$f.out | cut -c1-400 | sed "s/^/  [$m $f] /"; done
-  git checkout -- .
+  git checkout -q -- .
+  case $m in invert|nest|yoda) /verif/bin/astmut -mode $m $wt;; *) /verif/bin/astmut2 -mode $m $wt;; esac
+  for i in $(seq -w 1 40); do echo C$i; done | xargs -P 8 -I{} sh -c '/verif/bin/bifrost-verify -repo '$wt' -verif '$vd' -prop {} -tier quick > /tmp/am-{}.out 2>&1 || { echo "FALSE ALARM under rewrite '$m': {}"; grep -E "^ *(violated|undecided) " /tmp/am-{}.out | cut -c1-300; }' > /tmp/am-$m.fails
+  cat /tmp/am-$m.fails; [ -s /tmp/am-$m.fails ] && rc=1
 done
-rm -f /tmp/astmut-C*.out
-[ $rc -eq 0 ] && echo "syntactic rewrites: all verdicts unchanged"
+git checkout -q -- .; cd /; git -C /repo worktree remove --force $wt; rm -rf $vd /tmp/am-C*.out
+[ $rc -eq 0 ] && echo "repository-wide rewrites: all verdicts unchanged"
 exit $rc
